@@ -340,9 +340,25 @@ pub fn logfuzz(ex: &mut Exec, muts: &[LogMutation], adopt: bool) {
 							let _ = std::fs::write(&p, &data);
 							// garbage after the last record of a file reads as an invalid record
 							// right there: whatever follows in later files comes after it
+							// (a fragment shorter than the entry header its first byte announces is
+							// what a torn tail looks like: it reads as the end of that file, and the
+							// consecutively numbered records of the next file are not "after" an
+							// invalid record)
+							let need = match g[0] {
+								1 => 9,
+								2 | 3 | 6 => 11,
+								4 => 5,
+								5 | 7 => 3,
+								_ => 0,
+							};
+							let torn_tail = need > 0 && g.len() < need;
 							let of = origin.get(&f).cloned().unwrap_or(f.clone());
 							if let Some(last) = ex.log_records.iter().filter(|r| r.file == of && r.live).map(|r| r.record_id).max() {
-								note(vec![last + 1]);
+								if !torn_tail {
+									note(vec![last + 1]);
+								} else {
+									ex.stats.probe("logfuzz_garbage_reads_as_torn_tail");
+								}
 							}
 							applied += 1;
 						}
@@ -578,7 +594,15 @@ fn open_and_judge(ex: &mut Exec, img: &str, j_tables: usize, upper: usize, n: us
 		let j = *matching.iter().find(|j| **j > hi).unwrap_or(&j);
 		ex.push_violation(
 			"C13",
-			if first_pending_damaged { "replay-starts-after-missing-first-log" } else { "applied-after-invalid" },
+			// re-applied older records can coincide with a later state (a key set again to a value it
+			// had before)
+			if rewind_possible {
+				"rewind-by-valid-older-records"
+			} else if first_pending_damaged {
+				"replay-starts-after-missing-first-log"
+			} else {
+				"applied-after-invalid"
+			},
 			format!("state after opening damaged logs is S_{j} but the first invalid record bounds it to S_{hi}: something after the first invalid record was applied"),
 		);
 	}
